@@ -164,8 +164,8 @@ bool linepart::array::apply(const transform &tr, int dim, span<const double> src
 				if (old.raw < pt.raw) {
 					pt.raw = old.raw;
 				}
-				// minimize trailing line
-				if (pt.usr && old._trim > pt._trim) {
+				// minimize trailing line if it ends on the same point
+				if (pt.usr && pt.usr == old.usr && old._trim > pt._trim) {
 					pt._trim = old._trim;
 				}
 				// continue in next part
